@@ -207,13 +207,13 @@ class Model:
                 m.assigns.setdefault(nm, []).append(st.value)
         elif isinstance(st, (ast.If, ast.Try)):
             # module-level conditional definitions (e.g. DEFAULT_HOST)
-            for sub in ast.iter_child_nodes(st):
-                if isinstance(sub, ast.stmt):
-                    self._index_stmt(m, sub)
             for field in ("body", "orelse", "finalbody"):
                 for sub in getattr(st, field, []) or []:
                     if isinstance(sub, ast.stmt):
                         self._index_stmt(m, sub)
+            for h in getattr(st, "handlers", []) or []:
+                for sub in h.body:
+                    self._index_stmt(m, sub)
 
     def _index_nested(self, outer):
         for n in ast.walk(outer.node):
